@@ -448,7 +448,7 @@ def pf_mark(c):
     c.ob('portfolio-clock-untouched', EQ(pf.current_dt, c.time('pf.clock')), kind='A')
 
 
-canary('negative mark applied', Portfolio, 'update_market_value_of_asset', 'if current_price < 0.0:', 'if False:')(pf_mark)
+canary('mark earlier than the portfolio clock applied', Portfolio, 'update_market_value_of_asset', 'if current_dt < self.current_dt:', 'if False:')(pf_mark)
 canary('mark changes the quantity', Position, 'update_current_price', 'self.current_price = market_price',
        'self.current_price = market_price; self.buy_quantity += 0 if market_price > 1 else 1')(pf_mark)
 
